@@ -33,6 +33,7 @@ def make_pair(state, decimals=(6, 18)):
     from mc.worlds.catalog import _decimal_prices
     from mc.worlds.kit import Ctx
 
+    state, _, prep = state.partition("@")  # "@2min": minute rows resampled by the market; "@gap": a minute without a row, filled by the loader's rule
     qt = TokenInfo("USDC", decimals[0])
     bt = TokenInfo("WETH", decimals[1])
     shift = 0 if decimals == (6, 18) else int(round((decimals[1] - decimals[0] - 12) * 23025.85))  # keep the price scale: ticks move with the decimals gap
@@ -57,11 +58,34 @@ def make_pair(state, decimals=(6, 18)):
             ticks = [-t for t in closes]
             in0, in1 = vb, vq
             rng = {k: (-(b + shift), -(a + shift)) for k, (a, b) in RANGES0.items()}
-        raw = uni.raw_frame(ticks, in0, in1, 4 * 10**16, open_tick=ticks[0])
-        data = uni.prepared(raw, pool)
+        if prep.endswith("min"):
+            # k one-minute rows per bar with different flows every minute; the bar is what the repository's resampling rules make of them
+            k = int(prep[:-3])
+            sgn = 1 if orient == "q0" else -1
+            m_ticks, m0, m1 = [], [], []
+            for i, c in enumerate(ticks):
+                for j in range(k):
+                    m_ticks.append(c if j == k - 1 else c + sgn * (11 * j - 7))
+                    m0.append(in0[i] * (j + 1) // (k * (k + 1) // 2) if j < k - 1 else in0[i] - sum(in0[i] * (jj + 1) // (k * (k + 1) // 2) for jj in range(k - 1)))
+                    m1.append(in1[i] * (k - j) // (k * (k + 1) // 2) if j < k - 1 else in1[i] - sum(in1[i] * (k - jj) // (k * (k + 1) // 2) for jj in range(k - 1)))
+            raw = uni.raw_frame(m_ticks, m0, m1, 4 * 10**16, open_tick=m_ticks[0])
+            m = uni.make_market(pool, uni.prepared(raw, pool), "uni")
+            m._resample(prep)  # repository code (demeter.uniswap.data.resample with the per-column rules)
+            data = m.data
+        elif prep == "gap":
+            # the download has no row for a minute without swaps: the loader re-indexes to the full minute grid and fills by its per-column rules
+            from demeter.uniswap.data import fillna as repo_fillna
+
+            raw = uni.raw_frame(ticks[:2] + [ticks[1]] + ticks[2:], in0[:2] + [0] + in0[2:], in1[:2] + [0] + in1[2:], 4 * 10**16, open_tick=ticks[0])
+            holed = raw.drop(raw.index[2]).reindex(raw.index)
+            data = uni.prepared(repo_fillna(holed), pool)
+            m = uni.make_market(pool, data, "uni")
+        else:
+            raw = uni.raw_frame(ticks, in0, in1, 4 * 10**16, open_tick=ticks[0])
+            data = uni.prepared(raw, pool)
+            m = uni.make_market(pool, data, "uni")
         price_df, quote = get_price_from_data(data, pool)
         prices = _decimal_prices(price_df)
-        m = uni.make_market(pool, data, "uni")
         ctx = Ctx(f"uni({orient})", prices, quote, [_Plain(m)], [(qt, 10000), (bt, 5)], data.index)
         ctx.rng = rng
         ctx.orient = orient
@@ -354,6 +378,8 @@ def main(run: Run):
     depth, max_dev = run.pick((3, 1), (3, 2))
     decs = [(6, 18), (8, 18)] if run.thorough else [(6, 18)]
     states = list(STATES) if run.thorough else ["below", "just-below", "inside", "inside-off-grid", "just-above", "above"]
+    # the same pools fed through the repository's data preparation: minute rows resampled to longer bars, and a minute without a row filled by the loader's rules
+    states += ["inside@2min", "just-below@5min", "inside@gap"] + (["just-above@2min", "below@gap", "inside-off-grid@5min"] if run.thorough else [])
     jobs = run.rotate([(run.seed, s, d, depth, max_dev, (k, 4)) for s in states for d in decs for k in range(4)])
     for r in pmap(work, jobs):
         run.merge(r)
